@@ -522,7 +522,10 @@ class Check:
         native = None
         oracle = ob.meta.get('oracle')
         if oracle:
-            native = ob.meta.get('native_result') or self.native(oracle, witness)
+            # at most four witness-specific native replays per run; further violations are replayed on the oracle's
+            # seeded family (one cached run per oracle) to keep a failing run within minutes
+            self._nreplays = getattr(self, '_nreplays', 0) + (0 if ob.meta.get('native_result') else 1)
+            native = ob.meta.get('native_result') or self.native(oracle, witness if self._nreplays <= 4 else {})
             replayed = native['status'] == 'fails'
         data = {
             'property': self.prop, 'obligation': ob.name, 'kind': ob.kind, 'exact': ob.exact,
